@@ -363,3 +363,151 @@ Proof.
   rewrite app_assoc. rewrite set_nth_app by (rewrite app_length; lia).
   rewrite <- app_assoc. reflexivity.
 Qed.
+
+(* ---------- one iteration of the j loop ---------- *)
+
+Lemma quot_digit_bounds V W Bw : 0 < V -> 0 <= W < V * Bw ->
+  0 <= W / V < Bw /\ (W / V) * V <= W /\ W < (W / V + 1) * V.
+Proof.
+  intros HV HW. pose proof (Z.div_mod W V ltac:(lia)). pose proof (Z.mod_pos_bound W V HV).
+  split; [split; [apply Z.div_pos; lia | apply Z.div_lt_upper_bound; lia] | nia].
+Qed.
+
+Lemma step_noborrow V W q qh : 0 < V -> q <= qh -> qh * V <= W -> W < (q + 1) * V -> qh = q.
+Proof. intros. nia. Qed.
+
+Lemma step_borrow V W q qh : 0 < V -> qh <= q + 1 -> q * V <= W -> W < qh * V -> qh = q + 1.
+Proof. intros. nia. Qed.
+
+Lemma addback_value Bn Bw x R t1 c : 0 < Bn -> 0 <= x < Bn -> 0 <= R < Bn -> 0 <= t1 < Bw ->
+  x + bz c * Bn + Bn * t1 = R + Bn * Bw -> c = true /\ t1 = Bw - 1 /\ x = R.
+Proof.
+  intros HBn Hx HR Ht E. destruct c; cbn [bz] in E.
+  - assert (t1 = Bw - 1) by nia. subst. split; [auto|]. split; [auto|]. nia.
+  - exfalso. nia.
+Qed.
+
+Lemma uval_top2 w vlo v2 v1 k : 0 <= w ->
+  uval w (vlo ++ [v2; v1] ++ repeat 0 k) = uval w vlo + Mod w (length vlo) * (v2 + B w * v1).
+Proof.
+  intros Hw. rewrite uval_app by auto. cbn [app uval]. rewrite uval_repeat0. f_equal. f_equal. lia.
+Qed.
+
+Lemma uval_top3 w wlo u2 u1 u0 : 0 <= w ->
+  uval w (wlo ++ [u2; u1; u0]) = uval w wlo + Mod w (length wlo) * (u2 + B w * (u0 * B w + u1)).
+Proof.
+  intros Hw. rewrite uval_app by auto. cbn [uval]. f_equal. f_equal. lia.
+Qed.
+
+Lemma knuth_step w N n j v vlo v2 v1 pre win post :
+  0 < w -> (n = length vlo + 2)%nat -> (n <= N)%nat ->
+  v = vlo ++ [v2; v1] ++ repeat 0 (N - n) -> wf w N v -> B w <= 2 * v1 ->
+  j = length pre -> wf w (S n) win -> uval w win < uval w v * B w ->
+  forall u1 overflow,
+  Remainder_sub w (pre ++ win ++ post) (Mul_new w v (knuth_qhat w (pre ++ win ++ post) j n v1 v2)) j n
+    = (u1, overflow) ->
+  exists win' q',
+    (if overflow then (knuth_qhat w (pre ++ win ++ post) j n v1 v2 - 1, Remainder_add w u1 v j n)
+     else (knuth_qhat w (pre ++ win ++ post) j n v1 v2, u1)) = (q', pre ++ win' ++ post) /\
+    wf w (S n) win' /\ 0 <= q' < B w /\
+    uval w win = q' * uval w v + uval w win' /\ uval w win' < uval w v.
+Proof.
+  intros Hw0 Hn HnN Hv Hwfv Hnorm Hj Hwin HWV u1 overflow Esub.
+  assert (Hw : 0 <= w) by lia. pose proof (B_pos w Hw) as HB.
+  (* the divisor *)
+  destruct Hwfv as [Hlv Hfv].
+  assert (Hfv' : Forall (digit_ok w) vlo /\ digit_ok w v2 /\ digit_ok w v1).
+  { rewrite Hv in Hfv. apply Forall_app in Hfv. destruct Hfv as [H1 H2].
+    inversion H2 as [|? ? H3 H4]; subst. inversion H4; subst. auto. }
+  destruct Hfv' as (Hfvlo & Hv2 & Hv1). unfold digit_ok in Hv2, Hv1.
+  set (S := Mod w (length vlo)).
+  assert (HS : 1 <= S) by (apply Mod_ge_1; auto).
+  pose proof (uval_bounds w _ vlo Hw (wf_of_Forall _ _ Hfvlo)) as Hvlo. fold S in Hvlo.
+  assert (HV : uval w v = uval w vlo + S * (v2 + B w * v1)) by (rewrite Hv; apply uval_top2; auto).
+  set (V := uval w v) in *.
+  assert (Hv1pos : 0 < v1) by lia.
+  assert (HVpos : 0 < V) by nia.
+  assert (HModn : Mod w n = S * (B w * B w)).
+  { rewrite Hn. rewrite Mod_add, !Mod_S, Mod_0 by auto. unfold S. lia. }
+  assert (HVn : V < Mod w n).
+  { rewrite HModn. assert (H1 : v2 + B w * v1 <= B w * B w - 1) by nia.
+    assert (H2 : S * (v2 + B w * v1) <= S * (B w * B w - 1)) by (apply Z.mul_le_mono_nonneg_l; lia).
+    lia. }
+  (* the window *)
+  destruct Hwin as [Hlwin Hfwin].
+  destruct (split_last3 win (length vlo) ltac:(lia)) as (wlo & u2 & u1' & u0 & Ewin & Hlwlo).
+  assert (Hfw' : Forall (digit_ok w) wlo /\ digit_ok w u2 /\ digit_ok w u1' /\ digit_ok w u0).
+  { rewrite Ewin in Hfwin. apply Forall_app in Hfwin. destruct Hfwin as [H1 H2].
+    inversion H2 as [|? ? H3 H4]; subst. inversion H4 as [|? ? H5 H6]; subst. inversion H6; subst. auto. }
+  destruct Hfw' as (Hfwlo & Hu2 & Hu1 & Hu0).
+  pose proof (uval_bounds w _ wlo Hw (wf_of_Forall _ _ Hfwlo)) as Hwlo. rewrite Hlwlo in Hwlo. fold S in Hwlo.
+  assert (HW : uval w win = uval w wlo + S * (u2 + B w * (u0 * B w + u1'))).
+  { rewrite Ewin, uval_top3 by auto. rewrite Hlwlo. reflexivity. }
+  set (W := uval w win) in *.
+  assert (HW0 : 0 <= W) by (unfold digit_ok in *; nia).
+  destruct (quot_digit_bounds V W (B w) HVpos ltac:(lia)) as (Hq & Hq1 & Hq2).
+  set (q := W / V) in *.
+  (* the estimate *)
+  set (qh := knuth_qhat w (pre ++ win ++ post) j n v1 v2) in *.
+  assert (Hqh : q <= qh <= q + 1 /\ 0 <= qh < B w).
+  { unfold qh. rewrite Ewin. rewrite knuth_qhat_eq by (auto; lia).
+    unfold digit_ok in *.
+    destruct (Z.ltb_spec u0 v1) as [Hlt|Hge].
+    - pose proof (qhat_calc_ok (B w) S (uval w wlo) (uval w vlo) u0 u1' u2 v1 v2 q) as H.
+      cbv zeta in H. rewrite <- HW, <- HV in H.
+      specialize (H HB HS Hwlo Hvlo ltac:(lia) Hu1 Hu2 Hv2 ltac:(lia) Hnorm ltac:(lia) Hq1 Hq2).
+      split; [exact H|]. split; [lia|].
+      pose proof (qhat_calc_le (B w) (u0 * B w + u1') u2 v1 v2).
+      assert ((u0 * B w + u1') / v1 < B w) by (apply Z.div_lt_upper_bound; nia). lia.
+    - pose proof (qhat_max_ok (B w) S (uval w wlo) (uval w vlo) u0 u1' u2 v1 v2 q) as H.
+      cbv zeta in H. rewrite <- HW, <- HV in H.
+      specialize (H ltac:(lia) HS Hwlo Hvlo Hge Hu1 Hu2 Hv2 ltac:(lia) Hnorm HWV ltac:(lia) Hq1 Hq2).
+      split; [exact H | lia]. }
+  destruct Hqh as [Hqh1 Hqh2].
+  (* the product *)
+  destruct (Mul_new_spec w N v qh Hw (conj Hlv Hfv) Hqh2) as [Hmwf Hmval]. fold V in Hmval.
+  assert (HMS : Mod w (Datatypes.S n) = B w * Mod w n) by (apply Mod_S; auto).
+  assert (Hmlt : uval w (Mul_new w v qh) < Mod w (Datatypes.S n)) by (rewrite Hmval, HMS; nia).
+  destruct (uval_firstn_small w (Datatypes.S N) (Datatypes.S n) _ Hw Hmwf ltac:(lia) Hmlt) as [Hmf _].
+  pose proof (wf_firstn w _ (Datatypes.S n) _ Hmwf ltac:(lia)) as Hmfwf.
+  (* the subtraction *)
+  destruct (sub_loop w win (firstn (Datatypes.S n) (Mul_new w v qh)) false) as [win1 bo] eqn:Esl.
+  rewrite (Remainder_sub_app w pre win post _ j n win1 bo Hj Hlwin Esl) in Esub.
+  inversion Esub; subst u1 overflow; clear Esub.
+  destruct (sub_loop_spec w Hw _ _ _ _ _ _ (conj Hlwin Hfwin) Hmfwf Esl) as [Hwin1 Hsval].
+  cbn [bz] in Hsval. rewrite Z.sub_0_r, Hmf, Hmval in Hsval. fold W in Hsval.
+  pose proof (uval_bounds w _ win1 Hw Hwin1) as Hb1.
+  destruct bo; cbn [bz] in Hsval.
+  - (* borrow: qh = q + 1, add back *)
+    assert (Eqh : qh = q + 1) by (apply (step_borrow V W); try lia; nia).
+    destruct Hwin1 as [Hlwin1 Hfwin1].
+    destruct (split_last1 win1 n Hlwin1) as (wl1 & t1 & Ewin1 & Hlwl1).
+    assert (Hfw1 : Forall (digit_ok w) wl1 /\ digit_ok w t1).
+    { rewrite Ewin1 in Hfwin1. apply Forall_app in Hfwin1. destruct Hfwin1 as [H1 H2].
+      inversion H2; subst. auto. }
+    destruct Hfw1 as [Hfwl1 Ht1].
+    pose proof (wf_firstn w N n v (conj Hlv Hfv) HnN) as Hvf.
+    destruct (uval_firstn_small w N n v Hw (conj Hlv Hfv) HnN HVn) as [Hvfval _]. fold V in Hvfval.
+    destruct (add_loop w wl1 (firstn n v) false) as [wl2 co] eqn:Eal.
+    destruct (add_loop_spec w Hw _ _ _ _ _ _ (conj Hlwl1 Hfwl1) Hvf Eal) as [Hwl2 Haval].
+    cbn [bz] in Haval. rewrite Z.add_0_r, Hvfval in Haval.
+    pose proof (uval_bounds w _ wl2 Hw Hwl2) as Hb2.
+    assert (Ew1 : uval w win1 = uval w wl1 + Mod w n * t1).
+    { rewrite Ewin1, uval_app by auto. rewrite Hlwl1. cbn [uval]. lia. }
+    destruct (addback_value (Mod w n) (B w) (uval w wl2) (W - q * V) t1 co) as (-> & -> & HR);
+      [apply Mod_pos; auto | lia | nia | exact Ht1 | nia |].
+    exists (wl2 ++ [0]), q.
+    split.
+    + f_equal; [lia|].
+      rewrite Ewin1. rewrite <- !app_assoc. cbn [app].
+      rewrite (Remainder_add_app w pre wl1 (B w - 1) post v j n wl2 true Hj Hlwl1 Eal (proj1 Hwl2)).
+      replace (B w - 1 + 1) with (B w) by lia. rewrite Z_mod_same_full. reflexivity.
+    + split.
+      * replace (Datatypes.S n) with (n + 1)%nat by lia. apply wf_app; [auto|].
+        apply wf_cons. split; [apply digit_ok_0; auto | apply wf_nil].
+      * split; [lia|]. rewrite uval_app by auto. cbn [uval]. nia.
+  - (* no borrow: qh = q *)
+    assert (Eqh : qh = q) by (apply (step_noborrow V W); try lia; nia).
+    exists win1, q. split; [rewrite Eqh; reflexivity|].
+    split; [auto|]. split; [lia|]. nia.
+Qed.
